@@ -88,6 +88,7 @@ PLANS = {
                   ex("spni3", "spni", 3, 3, kinds=["iter"], modes=["E"], invariants=INV_SPANS), ex("gapTi", "gapTi", 1, 3, kinds=["iter"], modes=["E"], invariants=INV_SPANS),
                   ex("spnr3", "spnr", 3, 3, kinds=["mapped"], modes=["E"], invariants=INV_SPANS),
                   ex("progT", "progT", 1, 3, alphabet=["a", "b", "E"], kinds=["str", "mapped"], modes=["E"], invariants=INV_SPANS),
+                  ex("prattS", "prattM", 1, 4, alphabet=["a", "*", "-", "!"], kinds=["str", "mapped"], modes=["E"], invariants=INV_SPANS),
                   rec("spnR", "spn", 1500, 8, 8, kinds=["str", "slice"]), rec("spngR", "spng", 1500, 8, 8, kinds=["mapped", "mstream", "stream"]),
                   rec("spnrR", "spnr", 1000, 8, 8, kinds=["mapped", "slice", "wctx", "mapspan"])],
         "thorough": [ex("spn3", "spn", 3, 4, alphabet=["a", "b", "E"], kinds=["str"], invariants=INV_SPANS),
